@@ -10,7 +10,8 @@
      load <hex json>                      -> OK <bufsize> <verify code>          | PARSEERR <code> <pos>
      ref <flags> <indent>                 -> R <ret> <err> <over> <hang> <ntr> <trh> <hex text>   (growing buffer, default size; becomes the reference)
      reffile <flags> <indent>             -> same through the file printer (used while base64 cannot be printed to buffers)
-     dyn <flags> <indent> <size>          -> <ret>:<err>:<over>:<hang>:<ok>:<ntr>:<trh>
+     dyn <flags> <indent> <size> [k]      -> <ret>:<err>:<over>:<hang>:<ok>:<ntr>:<trh> <block sizes asked of realloc, comma separated, - if none>
+                                             (k: the k-th realloc call fails and is listed as 0)
      file <flags> <indent>                -> <ret>:<err>:<over>:<hang>:<ok>:<ntr>:<trh>
      sweep <flags> <indent> <from> <to>   -> one such record per fixed buffer size, S = skipped after three hangs
      trace <mode f|d|l> <flags> <indent> <size> -> the p - pflush values seen by the flush callback
@@ -77,9 +78,14 @@ static void ps_free(void *p)
     if (g_last_slack == (uint8_t *)p + ((struct ps_hdr *)p - 1)->n) g_last_slack = 0;
     free((struct ps_hdr *)p - 1);
 }
+/* the sizes the printer asks realloc for (= what it gets: the ORACLE input of the model), 0 = injected failure */
+static size_t g_rsz[256]; static int g_nrs; static int g_fail_at;   /* g_fail_at: 1-based index of the call to fail, 0 = none */
 static void *ps_realloc(void *p, size_t n)
 {
     void *q; size_t old;
+    if (g_fail_at && g_nrs + 1 == g_fail_at) { if (g_nrs < 256) g_rsz[g_nrs] = 0; g_nrs++; return 0; }
+    if (g_nrs < 256) g_rsz[g_nrs] = n;
+    g_nrs++;
     if (!p) return ps_alloc(n);
     old = ((struct ps_hdr *)p - 1)->n;
     q = ps_alloc(n);
@@ -172,10 +178,11 @@ done:
     r->over = g_over + (g_asan_hit ? 1000000 : 0);
 }
 
-static void print_dyn(size_t size, int flags, int indent, struct res *r, int make_ref)
+static void print_dyn(size_t size, int flags, int indent, struct res *r, int make_ref, int fail_at)
 {
     flatcc_json_printer_t ctx; size_t n = 0; char *b;
     memset(r, 0, sizeof(*r)); g_over = 0; g_asan_hit = 0; memset(&ctx, 0, sizeof(ctx));
+    g_nrs = 0; g_fail_at = fail_at;
     if (sigsetjmp(g_jb, 1)) { r->hang = 1; r->ret = -9; goto done; }
     if (flatcc_json_printer_init_dynamic_buffer(&ctx, size)) { r->ret = -8; goto done; }
     apply(&ctx, flags, indent); hook(&ctx);
@@ -193,7 +200,7 @@ static void print_dyn(size_t size, int flags, int indent, struct res *r, int mak
         } else r->ok = (int)n == r->ret && is_ref(b, n, r->ret);
     } else if (make_ref) { g_refret = -1; g_reflen = 0; }
 done:
-    disarm(); g_tracing = 0;
+    disarm(); g_tracing = 0; g_fail_at = 0;
     r->ntr = g_ntr; r->trh = g_trh;
     if (!r->hang) flatcc_json_printer_clear(&ctx);     /* scans the canaries of the final block */
     r->over = g_over + (g_asan_hit ? 1000000 : 0);
@@ -263,7 +270,7 @@ int main(void)
         } else if (!g_fb && strcmp(t[0], "fmt") && strcmp(t[0], "asan")) {
             printf("NOBUF\n");
         } else if (!strcmp(t[0], "ref") && n == 3) {
-            struct res r; print_dyn(0, atoi(t[1]), atoi(t[2]), &r, 1);
+            struct res r; print_dyn(0, atoi(t[1]), atoi(t[2]), &r, 1, 0);
             printf("R %d %d %ld %d %ld %llu ", r.ret, r.err, r.over, r.hang, r.ntr, (unsigned long long)r.trh);
             if (r.ret >= 0 && g_refret >= 0) hx_print((const uint8_t *)g_ref, g_reflen); else printf("-");
             printf("\n");
@@ -272,8 +279,13 @@ int main(void)
             printf("R %d %d %ld %d %ld %llu ", r.ret, r.err, r.over, r.hang, r.ntr, (unsigned long long)r.trh);
             if (r.ret >= 0 && g_refret >= 0) hx_print((const uint8_t *)g_ref, g_reflen); else printf("-");
             printf("\n");
-        } else if (!strcmp(t[0], "dyn") && n == 4) {
-            struct res r; print_dyn((size_t)atol(t[3]), atoi(t[1]), atoi(t[2]), &r, 0); put_res(&r); printf("\n");
+        } else if (!strcmp(t[0], "dyn") && (n == 4 || n == 5)) {
+            struct res r; int i, nr;
+            print_dyn((size_t)atol(t[3]), atoi(t[1]), atoi(t[2]), &r, 0, n == 5 ? atoi(t[4]) : 0); nr = g_nrs;
+            put_res(&r); printf(" ");
+            for (i = 0; i < nr && i < 256; ++i) printf("%s%lu", i ? "," : "", (unsigned long)g_rsz[i]);
+            if (nr == 0) printf("-");
+            printf("\n");
         } else if (!strcmp(t[0], "file") && n == 3) {
             struct res r; print_file(atoi(t[1]), atoi(t[2]), &r, 0); put_res(&r); printf("\n");
         } else if (!strcmp(t[0], "sweep") && n == 5) {
@@ -289,7 +301,7 @@ int main(void)
         } else if (!strcmp(t[0], "trace") && n == 5) {
             struct res r; long i;
             if (t[1][0] == 'f') print_fixed((size_t)atol(t[4]), atoi(t[2]), atoi(t[3]), &r);
-            else if (t[1][0] == 'd') print_dyn((size_t)atol(t[4]), atoi(t[2]), atoi(t[3]), &r, 0);
+            else if (t[1][0] == 'd') print_dyn((size_t)atol(t[4]), atoi(t[2]), atoi(t[3]), &r, 0, 0);
             else print_file(atoi(t[2]), atoi(t[3]), &r, 0);
             put_res(&r); printf(" ");
             for (i = 0; i < r.ntr && i < 4096; ++i) printf("%s%ld", i ? "," : "", g_trv[i]);
